@@ -5,7 +5,7 @@ SPEC = dict(
     targets=["Properties/C01.vo", "Corr/C01.vo"],
     args=lambda tier, seed: ["-seed", seed, "-mix", "c01,c04,c01,c05", "-n", 160 if tier == "quick" else 3000, "-events", 40],
     search_args=lambda seed: ["-seed", seed, "-mix", "c04,c05,c01,c02", "-n", 300, "-events", 40],
-    shard=12, timeout=2400,
+    shard=4, timeout=2400,
     patterns={},
     rule="seeded scripts of <= 40 events against an established connection of the real stack (ISS/IRS from a set adjacent to 0, 2^31, 2^32 and random; peer MSS 20..1460, window scale, timestamps, SACK, IPv4/IPv6, small/large buffers): peer data in order / ahead / overlapping / far beyond the window (all slices of one peer stream), application writes and reads, cumulative / partial (mid-segment) / duplicate / beyond / old ACKs, retransmission time-outs, out-of-window RSTs, FINs; after EVERY event the implementation's protocol state, emitted frames and application result are compared with Model.Tcp.step; a trace is non-trivial when bytes were read by the application (tag bit 1) or data segments were emitted (tag bit 2); distinct = distinct case lines",
     trusted_base=TCP_TB, assumptions=TCP_ASSUME,
